@@ -82,8 +82,20 @@ def only_params(v, ps):
     return isinstance(v, Poly) and all(a in atoms for a in v.atoms(deep=False))
 
 
+_LIB = {}       # id(driver TU) -> the malloc.cpp TU of the same configuration (bodies of out-of-line helpers of malloc.h)
+
+
+def _untyped_primitive(q, fty):
+    """the exported untyped alignedMalloc(size, align) / alignedFree(ptr): the boundary between the header layer and malloc.cpp"""
+    sig = (fty or '').replace(' ', '').replace('noexcept', '')
+    return (q == AM and sig.startswith('void*(')) or (q == AF and sig.startswith('void('))
+
+
 def analyse(ctx, rule, inst, tu, f, this=None):
-    fl = Flow([tu])
+    lib = _LIB.get(id(tu))
+    fl = Flow([tu] + ([lib] if lib is not None else []))
+    if lib is not None:
+        fl.api_sig = _untyped_primitive     # helpers defined in malloc.cpp are followed, the two primitives are not
     try:
         # failure branches of assert() (only present in asserts-on variants) state preconditions; they are not paths of the contract
         return [p for p in fl.analyse(0, f, this=this) if not is_assert_path(p)]
@@ -1201,6 +1213,7 @@ def run(ctx):
     for (c, tag, ex, keytag), tu in zip(mal, tus):
         n1 += check_malloc_cpp(ctx, tu, tag, keytag)
     for (c, std, tag), tu in zip(drv, tus[len(mal):]):
+        _LIB[id(tu)] = next((t for (c2, _t, ex, _k), t in zip(mal, tus) if c2 == c and ex == ND), None)
         n2 += check_allocator(ctx, tu, tag)
         check_construct_patterns(ctx, tu, tag)
         n3 += check_typed_malloc(ctx, tu, tag)
